@@ -62,6 +62,28 @@ impl Timer {
         }
         (incs, ovf)
     }
+    /// The same as `advance`, in closed form (for batches of millions of clocks): the
+    /// selected bit falls each time the divider reaches a multiple of twice its weight, so the
+    /// number of increments is a quotient; k increments of TIMA overflow first after
+    /// 0x100 - TIMA of them and then every 0x100 - TMA.
+    pub fn advance_fast(&mut self, clocks: u64) -> (u64, u64) {
+        if self.tac & 4 == 0 {
+            self.div = (self.div as u64).wrapping_add(clocks) as u16;
+            return (0, 0);
+        }
+        let period = period(self.tac) as u64;
+        let incs = ((self.div as u64 % period) + clocks) / period;
+        self.div = (self.div as u64).wrapping_add(clocks) as u16;
+        let to_first = 0x100 - self.tima as u64;
+        if incs < to_first {
+            self.tima = (self.tima as u64 + incs) as u8;
+            return (incs, 0);
+        }
+        let rest = incs - to_first;
+        let per = 0x100 - self.tma as u64;
+        self.tima = (self.tma as u64 + rest % per) as u8;
+        (incs, 1 + rest / per)
+    }
     /// TAC write: a falling edge of the detector input increments TIMA
     /// (returns (edge happened, overflow))
     pub fn write_tac(&mut self, v: u8) -> (bool, bool) {
@@ -104,6 +126,31 @@ mod tests {
         t.advance(0x1234);
         assert_eq!(t.div_reg(), 0x12);
         assert_eq!(t.tima, 0);
+    }
+
+    #[test]
+    fn closed_form_equals_per_clock() {
+        let mut x = 0x1234_5678_9abc_def0u64;
+        let mut next = || {
+            x ^= x << 13;
+            x ^= x >> 7;
+            x ^= x << 17;
+            x
+        };
+        for _ in 0..4000 {
+            let r = next();
+            let mut a = Timer { div: r as u16, tima: (r >> 16) as u8, tma: (r >> 24) as u8, tac: (r >> 32) as u8 & 7 };
+            let mut b = a;
+            let n = match (r >> 40) % 5 {
+                0 => (r >> 44) % 40,
+                1 => (r >> 44) % 3000,
+                2 => 65536 * ((r >> 44) % 4) + (r >> 50) % 20,
+                3 => (r >> 44) % 300_000,
+                _ => period(a.tac) as u64 * ((r >> 44) % 600) + (r >> 56) % 3,
+            };
+            assert_eq!(a.advance(n), b.advance_fast(n), "{:?} + {}", a, n);
+            assert_eq!(a, b);
+        }
     }
 
     #[test]
